@@ -310,6 +310,154 @@ def relabel(G, ir):
     ir.cfg.add(G.Edge(e.source, e.target, new))
 
 
+# ---------------------------------------------------------------- node level
+def node_obs(G):
+    """what a single node shows (Lean: `symObs`, `exprObs`, `intervalObs`,
+    `sectionObs`, `moduleObs`): own compared fields, children in canonical
+    order, every reference replaced by the content of the node it denotes"""
+    def block(b):
+        if isinstance(b, G.CodeBlock):
+            return ("code", b.uuid.bytes, b.offset, b.size,
+                    b.decode_mode.value)
+        if isinstance(b, G.DataBlock):
+            return ("data", b.uuid.bytes, b.offset, b.size)
+        return ("proxy", b.uuid.bytes)
+
+    def sym(y):
+        if y.referent is not None:
+            pl = ("ref", block(y.referent))
+        elif y.value is not None:
+            pl = ("value", y.value)
+        else:
+            pl = ("none",)
+        return (y.uuid.bytes, y.name, bool(y.at_end), pl)
+
+    def expr(k, e):
+        attrs = tuple(sorted(a.value if isinstance(
+            a, G.SymbolicExpression.Attribute) else int(a)
+            for a in e.attributes))
+        if isinstance(e, G.SymAddrConst):
+            return (k, "const", e.offset, sym(e.symbol), attrs)
+        return (k, "addr", e.scale, e.offset, sym(e.symbol1), sym(e.symbol2),
+                attrs)
+
+    def interval(x):
+        return (x.uuid.bytes, x.address, x.size, bytes(x.contents),
+                tuple(sorted((block(b) for b in x.blocks),
+                             key=lambda t: t[1])),
+                tuple(expr(k, x.symbolic_expressions[k])
+                      for k in sorted(x.symbolic_expressions)))
+
+    def section(z):
+        return (z.uuid.bytes, z.name, tuple(sorted(f.value for f in z.flags)),
+                tuple(sorted((interval(x) for x in z.byte_intervals),
+                             key=lambda t: t[0])))
+
+    def module(m):
+        return (m.uuid.bytes, m.name, m.binary_path, m.preferred_addr,
+                m.rebase_delta, m.file_format.value, m.isa.value,
+                m.byte_order.value,
+                None if m.entry_point is None else block(m.entry_point),
+                tuple(sorted(p.uuid.bytes for p in m.proxies)),
+                tuple(sorted((section(z) for z in m.sections),
+                             key=lambda t: t[0])),
+                tuple(sorted((sym(y) for y in m.symbols),
+                             key=lambda t: t[0])),
+                tuple(sorted(m.aux_data)))
+    return block, sym, expr, interval, section, module
+
+
+def node_pairs(G, ir0, ir1):
+    """(label, node of ir0, node of ir1, observation function) for every node
+    of ir0 with a node of the same family and UUID in ir1, found by scanning
+    the containment tree"""
+    block, sym, expr, interval, section, module = node_obs(G)
+
+    def index(nodes):
+        d = {}
+        for n in nodes:
+            d.setdefault(n.uuid, n)
+        return d
+    out = []
+    for tag, get, ob in (
+            ("m", lambda i: list(i.modules), module),
+            ("s", lambda i: [z for m in i.modules for z in m.sections],
+             section),
+            ("i", lambda i: [x for m in i.modules for z in m.sections
+                             for x in z.byte_intervals], interval),
+            ("b", lambda i: [b for m in i.modules for z in m.sections
+                             for x in z.byte_intervals for b in x.blocks],
+             block),
+            ("y", lambda i: [y for m in i.modules for y in m.symbols], sym)):
+        other = index(get(ir1))
+        for n in get(ir0):
+            if n.uuid in other:
+                out.append((tag + irdump.hx(n.uuid.bytes), n, other[n.uuid],
+                            ob))
+    iv1 = index([x for m in ir1.modules for z in m.sections
+                 for x in z.byte_intervals])
+    for m in ir0.modules:
+        for z in m.sections:
+            for x in z.byte_intervals:
+                y = iv1.get(x.uuid)
+                if y is None:
+                    continue
+                for k, e in x.symbolic_expressions.items():
+                    if k in y.symbolic_expressions:
+                        out.append((
+                            "e%s:%d" % (irdump.hx(x.uuid.bytes), k), e,
+                            y.symbolic_expressions[k],
+                            lambda q, k=k: expr(k, q)))
+    return out
+
+
+def node_level(ctx, G, ir0, ir1, name, raw):
+    """deep_eq between corresponding nodes below the IR: both directions and
+    the direct oracle `observations equal`; returns the line the Lean model
+    must reproduce, or None after a report"""
+    items = []
+    for label, a, b, ob in node_pairs(G, ir0, ir1):
+        try:
+            with core.time_limit(30):
+                got = (bool(a.deep_eq(b)), bool(b.deep_eq(a)))
+        except (Exception, core.ImplTimeout) as e:   # noqa
+            got = ("raised", type(e).__name__)
+        expect = ob(a) == ob(b)
+        ctx.evaluations += 1
+        ctx.count("node:%s:%s" % (label[0], "equal" if expect else "differs"))
+        ctx.nontriv(("node", label[0], name, expect))
+        if got != (expect, expect):
+            ctx.report({"kind": "deep-eq-node-verdict", "node": label[0],
+                        "perturbation": name},
+                       {"perturbation": name, "node": label,
+                        "expected": expect, "deep_eq": list(got),
+                        "file_hex": raw.hex()[:6000]},
+                       "after perturbation %r, deep_eq between the two %s "
+                       "nodes %s gives %r, exact structural equality of what "
+                       "they show says %r" % (name, type(a).__name__, label,
+                                              got, expect))
+            return None
+        t = "1" if expect else "0"
+        items.append("%s=%s%s%s" % (label, t, t, t))
+    return " ".join(sorted(items))
+
+
+def stratified(rng, perts, n):
+    """a sample with every perturbation *name* represented before any name
+    is taken twice (blocks and expressions are few next to symbols)"""
+    by = {}
+    for p in perts:
+        by.setdefault(p[0], []).append(p)
+    for l in by.values():
+        rng.shuffle(l)
+    out = []
+    while len(out) < n and any(by.values()):
+        for name in list(by):
+            if by[name] and len(out) < n:
+                out.append(by[name].pop())
+    return out
+
+
 def run(ctx):
     import gtirb
     ctx.rule = ("pairs (IR, perturbed save/load copy): every applicable "
@@ -320,9 +468,9 @@ def run(ctx):
                 "(perturbation name, expected verdict)")
     rng = ctx.rng
     tie = ms.CheckedTie(ctx, "msg", "msg", flush_at=60)
-    n = ctx.scale(14, 400)
+    n = ctx.scale(30, 400)
     for no in range(n):
-        gen = irgen.Gen(gtirb, rng, rng.choice([0.4, 0.7]))
+        gen = irgen.Gen(gtirb, rng, rng.choice([0.4, 0.7, 1.0]))
         ir0 = gen.build()
         if no % 2:
             ms.add_aux(gen, gtirb, rng, ir0)
@@ -336,7 +484,7 @@ def run(ctx):
         C0 = canon_dump(gtirb, ir0)
         perts = list(perturbations(gtirb, rng, ir0))
         if not ctx.thorough() and len(perts) > 60:
-            perts = perts[:4] + rng.sample(perts[4:], 56)
+            perts = stratified(rng, perts, 60)
         for name, fn in perts:
             ir1 = ms.load(gtirb, raw)
             try:
@@ -366,10 +514,14 @@ def run(ctx):
             V1 = irdump.dump_irv(gtirb, ir1, lambda c, k: b"")
             e = "1" if expect else "0"
             a, b = " ".join(V0), " ".join(V1)
+            nl = node_level(ctx, gtirb, ir0, ir1, name, raw)
+            if nl is None:
+                break
             tie.add_checked("ir %d %s" % (no, name),
                             ["deepeq %s %s" % (a, b),
                              "deepeq %s %s" % (b, a),
-                             "canoneq %s %s" % (a, b)], [e, e, e],
+                             "canoneq %s %s" % (a, b),
+                             "deepeqnodes %s %s" % (a, b)], [e, e, e, nl],
                             lambda i, line, x, y: False)
         if no < 2:
             ctx.sample({"perturbations": [p[0] for p in perts[:12]],
